@@ -332,6 +332,17 @@ func runC16(rc *RunCtx) {
 			}
 		}
 	}
+	// zero tails: any input followed by 1..40 zero bytes is another input (in particular at lengths that are multiples of 32)
+	for _, l := range []int{100, 116, 120, 132, 148, 216, 248} {
+		for k := 1; k <= 40; k++ {
+			bz := append(structured(l, byte(l+k)), make([]byte, k)...)
+			c16Message(rc, bz, "zero-tail")
+			c16Burn(rc, bz, "zero-tail")
+			bz2 := append(make([]byte, k), structured(l, byte(l+k))...)
+			c16Message(rc, bz2, "zero-head")
+			c16Burn(rc, bz2, "zero-head")
+		}
+	}
 	// well-formed headers whose address words are the module's own padded address (as recipient, as sender, as caller, as
 	// all three), for either direction of travel and every body length: parsing does not look at what the words mean
 	for l := 116; l <= 420; l++ {
